@@ -301,9 +301,24 @@ def gen_nest(seed, feats=None):
                  [["evexc", g.id()], ["pad", b], ["chk", g.site()]], [["ev", g.id()]]]]
         g.funcs.append({"how": "fn", "body": body, "mod": None})
         main = [["try", [["call", fi, g.id()], ["chk", g.site()], ["throw", g.id(), "s"]], [["evexc", g.id()]], None]] + main
+    edge = False
+    if rng.chance(1.0 / 100):
+        # the very edge: a try block whose distance to its catch / finally block is the largest the 16-bit handler operands
+        # can express (65535 bytes with 32753 two-byte pads plus one three-byte pad in this template), and the two sizes below
+        # (distance 65536 cannot be encoded: the compiler may refuse such a program, but if it accepts it, it must run correctly)
+        a, odd = rng.choice([(32754, False), (32753, True), (32753, True), (32752, True), (32753, False)])
+        pads = [["pad", a]] + ([["pad1"]] if odd else [])
+        fi = len(g.funcs)
+        if rng.chance(0.5):
+            body = [["try", pads + [["chk", g.site()], ["throw", g.id(), "s"]], [["evexc", g.id()]], None], ["ev", g.id()]]
+        else:
+            body = [["try", pads + [["chk", g.site()], ["throw", g.id(), "s"]], None, [["ev", g.id()]]], ["ev", g.id()]]
+        edge = True
+        g.funcs.append({"how": "fn", "body": body, "mod": None})
+        main = [["try", [["call", fi, g.id()], ["ev", g.id()]], [["evexc", g.id()]], None]] + main
     funcs = [f if f is not None else {"how": "fn", "body": [], "mod": None} for f in g.funcs]
     return {"main": main, "funcs": funcs, "sites": g.sites, "whiles": g.whiles, "wrap": wrap, "nmods": g.nmods,
-            "escapes": [[v, m_] for v, m_ in g.clocal_ids]}
+            "escapes": [[v, m_] for v, m_ in g.clocal_ids], "edge": edge}
 
 
 # ---- renderer -----------------------------------------------------------------------------------
@@ -405,6 +420,8 @@ def render_all(ir):
         elif k == "pad":
             # bytecode padding (each `nil;` is two bytes): sizes the try / catch blocks up to the 16-bit operand limits
             emit(" ".join(["nil;"] * st[1]), ind)
+        elif k == "pad1":
+            emit("!nil;", ind)      # three bytes: changes the parity of the padding
         elif k == "setg":
             emit("gv = gv + 1;", ind)
         elif k == "evg":
@@ -724,7 +741,7 @@ def model(ir, tape, faults):
             probes.inc("captured_local_bumped")
             env["locals"][st[2]][0] += 1
             ev.append([num(st[1]), num(env["locals"][st[2]][0])])
-        elif k == "pad":
+        elif k in ("pad", "pad1"):
             pass
         elif k == "setg":
             G[env["mod"]][0] += 1
@@ -1029,6 +1046,10 @@ class C08:
             h = ctx.run(config, dict(sc, config=cfg) if cfg else sc)
             stats.inc("executions")
             stats.inc("executions:" + config)
+            if ir.get("edge") and "crash" not in h and "hang" not in h and h["programs"][0]["outcome"].get("err") == "CompileError" \
+                    and not h["programs"][0]["events"]:
+                stats.inc("edge_size_program_refused_by_the_compiler")      # not a run: nothing to compare
+                continue
             v = compare(exp, h)
             if v and config.endswith("@memcheck"):
                 res["scenario"] = dict(res.get("scenario", sc), force_mc_slice=True)
